@@ -162,7 +162,7 @@ def wellformed(tr):
         if e['i'] <= last_i or e['t'] < last_t:
             return 'non-monotone event %r' % e
         last_i, last_t = e['i'], e['t']
-        if e['k'] == 'call':
+        if e['k'] in ('call', 'callc'):
             calls.add(e['th'])
         if e['k'] == 'ret':
             if e['th'] not in calls:
